@@ -90,6 +90,9 @@ contract(R + "FortranReaderBase.next",
             "self.reader._include_omp_conditional_lines == old(self._include_omp_conditional_lines) and "
             "self.reader.process_directives == old(self.process_directives)",
         # an include that cannot be resolved is handed on unchanged and no nested reader is left behind
+        # every line of the INCLUDE form (the reader's own pattern: any letter case, either quote) is looked up; only other items pass through
+        "only_non_include_lines_pass_through@ret3": "not (isinstance(item, Line) and _IS_INCLUDE_LINE(item.line))",
+        "looked_up_lines_have_the_include_form@ret1": "isinstance(item, Line) and _IS_INCLUDE_LINE(item.line)",
         "unresolved_include_returned_as_item@ret1": "result == item and not os.path.isfile(include_candidate(old(self.include_dirs), filename, 0))",
     },
     ensures={"own_options_kept": KEPT},
@@ -100,5 +103,5 @@ contract(R + "FortranReaderBase.next",
         "none_before": "include_candidate(include_dirs, filename, 0) == include_candidate(include_dirs, filename, _k0)",
         "dirs": "include_dirs == old(self.include_dirs)",
     }, modifies=[])},
-    serves=["C06", "C12", "C13"],
+    serves=["C06", "C12", "C13", "C15"],
 )
